@@ -1,6 +1,7 @@
 package main
 
 import (
+	"go/constant"
 	"go/ast"
 	"go/token"
 	"go/types"
@@ -37,6 +38,42 @@ func successReturns(f *Func) []*ast.ReturnStmt {
 }
 
 func rulesC15(c *Ctx) {
+	c.Rule("R-C15-7", "what counts as loopback is exactly the name localhost and the loopback addresses: util.IsLoopback answers true only under host == \"localhost\" (equality, not a suffix or substring) or by netip.Addr.IsLoopback of the parsed host; every other return is false", func() {
+		f := c.Fn("internal/util", "", "IsLoopback")
+		g := f.Graph()
+		n := 0
+		for i, r := range f.Returns() {
+			if len(r.Results) != 1 {
+				continue
+			}
+			n++
+			res := ast.Unparen(r.Results[0])
+			if cv := f.ConstVal(res); cv != nil && cv.Kind() == constant.Bool {
+				if !constant.BoolVal(cv) {
+					c.Ok("IsLoopback:return#"+itoa(i), f, r, "answers false")
+					continue
+				}
+				guards := g.GuardsAt(g.VertexOf(r))
+				okEq := hasAtom(guards, func(a Atom) bool {
+					_, y, op, isCmp := binaryCmp(a.E)
+					sv, isS := f.ConstString(y)
+					return isCmp && op == token.EQL && a.Val && isS && sv == "localhost"
+				})
+				nl, what := g.semanticLeaves(g.VertexOf(r))
+				c.Check(okEq && nl <= 1, "IsLoopback:return#"+itoa(i), f, r, "true is answered under host == \"localhost\" and nothing else (tests: %s)", what)
+				continue
+			}
+			ce, isCall := res.(*ast.CallExpr)
+			okCall := false
+			if isCall {
+				if fn := f.Callee(ce); fn != nil && fn.Name() == "IsLoopback" && fn.Pkg() != nil && (fn.Pkg().Path() == "net/netip" || fn.Pkg().Path() == "net") {
+					okCall = true
+				}
+			}
+			c.Check(okCall, "IsLoopback:return#"+itoa(i), f, r, "the remaining answer is the standard library's IsLoopback of the parsed address")
+		}
+		c.Pin("IsLoopback returns", n, 3)
+	})
 	httpsOrLb := c.FnObj(pO, "", "checkHTTPSOrLoopback")
 	scheme := c.FnObj(pO, "", "checkURLScheme")
 
